@@ -54,6 +54,18 @@ def oracle_methods(ck, tier, deep):
                     dm = np.abs(TX - X @ M).max() / (np.abs(TX).max() + 1e-300)
                     if dm > 1e-9:
                         ck.disagree("K.fixed-operator", dict(base), f"T(X) differs from X @ operator by {dm:.3g} (relative)")
+                    # … on every image, the sparse ones included: one non-zero column, a band of columns between empty borders (zero-padded
+                    # or masked data) — X @ M again, nothing is "skipped" because a column happens to vanish
+                    for kind in ("column", "band"):
+                        E = np.zeros((rows, n))
+                        j0 = int(rng.integers(0, n))
+                        j1 = j0 + 1 if kind == "column" else min(n, j0 + int(rng.integers(1, max(2, n // 3))))
+                        E[:, j0:j1] = rng.normal(size=(rows, j1 - j0))
+                        TE = T(E)
+                        de = np.abs(TE - E @ M).max() / (np.abs(E @ M).max() + 1e-300)
+                        if de > 1e-9:
+                            ck.violation(dict(sig, clause="sparse-image"), dict(base, columns=[j0, j1], X=E.tolist()),
+                                         f"image with non-zero columns {j0}..{j1 - 1} only: T(X) differs from X @ operator by {de:.3g} (relative)")
                     df = lin_defect(T, X, Y, a, b)
                     if df > 1e-9:
                         ck.violation(dict(sig, clause="linearity"), dict(base, a=a, b=b, X=X.tolist(), Y=Y.tolist()),
@@ -311,7 +323,7 @@ def oracle_tools(ck, tier, deep):
                              f"{label}: the same pixel values as a {bad[0]} array: {bad[1] if isinstance(bad[1], str) else 'result differs by %.3g' % bad[1]}")
                 break
             # detector counts: an integer image is transformed as its float64 copy (centring with fractional origins included)
-            if label.startswith(("Transform/", "linbasex/image", "Distributions/remap/corner", "Distributions/linear/uint8", "symmetrise/")):
+            if label.startswith(("Transform/", "linbasex/image", "Distributions/remap/corner", "Distributions/linear/uint8", "symmetrise/", "set_center/")):
                 Xi = np.round(X * 40).astype([np.int32, np.uint16, np.int64, np.uint8][int(rng.integers(0, 4))])
                 if Xi.dtype == np.uint16:
                     Xi = np.abs(np.round(X * 40)).astype(np.uint16)
